@@ -4,6 +4,11 @@
 //! reference), minus std's optional leading '+' which konst documents as rejected.
 //! Prefix parsing (`Parser::parse_<int>`): the harness scans "optional '-' (signed only) +
 //! longest run of ASCII digits" itself and hands exactly that prefix to `str::parse`.
+//!
+//! Every harness stubs `konst_kernel::string::non_char_boundary_panic` (reachable only syntactically,
+//! through `string::str_from` in the parse methods): unstubbed, its 256-byte message loops are
+//! unrolled `unwind` times and a 39-digit harness does not finish in 10 min (measured: 5 s stubbed).
+//! The stub still panics, so reaching it would be reported as a failed check.
 use crate::hlib::*;
 use konst::parsing::{HasParser, ParseError, Parser};
 use konst::primitive as prim;
@@ -206,8 +211,14 @@ harness! {
 }
 
 // ---------------------------------------------------------------------------
-// wider types: fixed-length strings, sign in {none,'-','+'} and every digit symbolic, so that every
-// neighbourhood of MIN/MAX, one extra digit, leading zeros, '-0' and '+' are inside
+// wider types.  Two families:
+//  * c12_near_<T> (quick) / c12_near_<T>_deep (thorough): the leading digits of MAX (which MIN shares)
+//    concrete, the last d digits symbolic, all 9 combinations of sign {none,'-','+'} and extra leading
+//    digit {none,'0','1'}: every value within 10^d of MIN/MAX, leading zero, one extra digit, '+'.
+//  * c12_wide_<T>[_extra]: sign in {none,'-','+'} and EVERY digit symbolic (k = digits of MAX, k+1 for
+//    _extra).  Affordable for the unsigned types and i32; for i64/i128/isize the equivalence of konst's
+//    unsigned accumulation with std's signed checked arithmetic over 19+ symbolic digits did not
+//    finish in 40 min, so those types have the near/deep harnesses only.
 
 /// sign (none, '-' or '+') followed by exactly `k` symbolic digits (`CAP >= k + 1`)
 fn fixed_numeric<const CAP: usize, S: Src>(s: &mut S, k: usize) -> ([u8; CAP], usize) {
@@ -674,11 +685,11 @@ harness! {
 }
 
 harness! {
-    /// kind=bounded tier=thorough bound="i64: sign in {none,'-','+'}, optional extra leading '0' or '1', the first 13 digits of i64::MAX, 6 symbolic digits (all-symbolic 19-digit strings are out of reach for the signed 64/128-bit types: >40 min)"
+    /// kind=bounded tier=thorough bound="i64: sign in {none,'-','+'}, optional extra leading '0' or '1', the first 11 digits of i64::MAX, 8 symbolic digits (all-symbolic 19-digit strings are out of reach for the signed 64/128-bit types: >40 min)"
     #[kani::unwind(25)]
     #[kani::stub(konst_kernel::string::non_char_boundary_panic, crate::hlib::stub_non_char_boundary_panic)]
     fn c12_near_i64_deep(s) {
-        let (len, r, buf) = near::<i64, 23, _>(s, b"9223372036854775807", 6);
+        let (len, r, buf) = near::<i64, 23, _>(s, b"9223372036854775807", 8);
         cov!(s, r == Some(i64::MAX), "C12.cover.i64_deep_max");
         cov!(s, r == Some(i64::MIN), "C12.cover.i64_deep_min");
         cov!(s, r.is_none() && len == 20 && buf[0] == b'-', "C12.cover.i64_deep_below_min");
@@ -686,11 +697,11 @@ harness! {
 }
 
 harness! {
-    /// kind=bounded tier=thorough bound="i128: sign in {none,'-','+'}, optional extra leading '0' or '1', the first 33 digits of i128::MAX, 6 symbolic digits (all-symbolic 39-digit strings are out of reach for the signed 64/128-bit types: >40 min)"
+    /// kind=bounded tier=thorough bound="i128: sign in {none,'-','+'}, optional extra leading '0' or '1', the first 31 digits of i128::MAX, 8 symbolic digits (all-symbolic 39-digit strings are out of reach for the signed 64/128-bit types: >40 min)"
     #[kani::unwind(45)]
     #[kani::stub(konst_kernel::string::non_char_boundary_panic, crate::hlib::stub_non_char_boundary_panic)]
     fn c12_near_i128_deep(s) {
-        let (len, r, buf) = near::<i128, 43, _>(s, b"170141183460469231731687303715884105727", 6);
+        let (len, r, buf) = near::<i128, 43, _>(s, b"170141183460469231731687303715884105727", 8);
         cov!(s, r == Some(i128::MAX), "C12.cover.i128_deep_max");
         cov!(s, r == Some(i128::MIN), "C12.cover.i128_deep_min");
         cov!(s, r.is_none() && len == 40 && buf[0] == b'-', "C12.cover.i128_deep_below_min");
@@ -698,11 +709,11 @@ harness! {
 }
 
 harness! {
-    /// kind=bounded tier=thorough bound="isize: sign in {none,'-','+'}, optional extra leading '0' or '1', the first 13 digits of isize::MAX, 6 symbolic digits (all-symbolic 19-digit strings are out of reach for the signed 64/128-bit types: >40 min)"
+    /// kind=bounded tier=thorough bound="isize: sign in {none,'-','+'}, optional extra leading '0' or '1', the first 11 digits of isize::MAX, 8 symbolic digits (all-symbolic 19-digit strings are out of reach for the signed 64/128-bit types: >40 min)"
     #[kani::unwind(25)]
     #[kani::stub(konst_kernel::string::non_char_boundary_panic, crate::hlib::stub_non_char_boundary_panic)]
     fn c12_near_isize_deep(s) {
-        let (len, r, buf) = near::<isize, 23, _>(s, b"9223372036854775807", 6);
+        let (len, r, buf) = near::<isize, 23, _>(s, b"9223372036854775807", 8);
         cov!(s, r == Some(isize::MAX), "C12.cover.isize_deep_max");
         cov!(s, r == Some(isize::MIN), "C12.cover.isize_deep_min");
         cov!(s, r.is_none() && len == 20 && buf[0] == b'-', "C12.cover.isize_deep_below_min");
